@@ -869,3 +869,91 @@ for _m in REF_MODULES:
         UNITS[f"{_s}.{_n}"] = Unit(f"{_s}.{_n}", _f, [f"{_m}.{_n}"], props=("C07",), args=(_m,))
     _pm = REF_PAIRING[_m]
     UNITS[f"{_s}.linefunc"] = Unit(f"{_s}.linefunc", u_ref_linefunc, [f"{_pm}.linefunc"], props=("C05",), args=(_pm,))
+
+
+# ------------------------------------------------------------------------------------------
+# twist: E'(F_p2) -> E(F_p12)  (C07).  Real field classes of the curve (concrete prime and modulus polynomials),
+# symbolic coordinates; polyid with the known characteristic p.
+# ------------------------------------------------------------------------------------------
+TWIST_MODS = {"py_ecc.bn128.bn128_curve": ("bn128", False), "py_ecc.optimized_bn128.optimized_curve": ("bn128", True),
+              "py_ecc.bls12_381.bls12_381_curve": ("bls12_381", False), "py_ecc.optimized_bls12_381.optimized_curve": ("bls12_381", True)}
+
+
+def _coeffs(o):
+    from contracts.fields import coeff_abs
+    return [coeff_abs(c, None) if not isinstance(c, int) else c for c in o.attrs["coeffs"]]
+
+
+def u_twist(ctx, modname):
+    from pyvc.core import PToken
+    from pyvc.interp import Obj
+    from contracts.fields import call_method, coeff_abs
+    curve, opt = TWIST_MODS[modname]
+    q = f"{modname}.twist"
+    fv = get_function(ctx.prog, q)
+
+    def body(path):
+        it = mk_interp(ctx, q)
+        mod = it.prog.load(modname)
+        p = it.module_value(mod, "field_modulus")
+        path.pc.char = p
+        K = FldKind("ZmodP", modulus=p)
+        FQ2c = it.module_value(mod, "FQ2")
+        FQ12c = it.module_value(mod, "FQ12")
+        b2, b12 = it.module_value(mod, "b2"), it.module_value(mod, "b12")
+
+        def sym2(nm):
+            return it.instantiate(FQ2c, [[Fld(PR_(f"{nm}0"), K, reduced=True), Fld(PR_(f"{nm}1"), K, reduced=True)]], {})
+
+        def op(a, name, *args):
+            k_, r_ = call_method(it, a, name, list(args))
+            if k_ == "raise":
+                raise Unsupported(f"field operation {name} raised {r_.__name__}")
+            return r_
+
+        def cf(o):
+            return [coeff_abs(c, K) for c in o.attrs["coeffs"]]
+        X, Y = sym2("x"), sym2("y")
+        if opt:
+            Z = sym2("z")
+            path.assume(FAtom((cf(Z)[0] * cf(Z)[0] + cf(Z)[1] * cf(Z)[1]).r.n, False), "z != 0 in F_p2 (norm non-zero)")
+            lhs = op(op(op(Y, "__mul__", Y), "__mul__", Z), "__sub__", op(op(op(X, "__mul__", X), "__mul__", X), "__add__",
+                     op(b2, "__mul__", op(op(Z, "__mul__", Z), "__mul__", Z))))
+            pt = (X, Y, Z)
+        else:
+            lhs = op(op(Y, "__mul__", Y), "__sub__", op(op(op(X, "__mul__", X), "__mul__", X), "__add__", b2))
+            pt = (X, Y)
+        for c in cf(lhs):
+            path.assume(FAtom(c.r.n, True), "requires: the point is on the twist E'(F_p2)")
+        it.cfg.top = q
+        kind, res = call_top(it, fv, [pt])
+        if kind == "raise":
+            path.prove(f"{q}/raises.none", False, detail=res.__name__)
+            return
+        n = 3 if opt else 2
+        ok = isinstance(res, tuple) and len(res) == n and all(isinstance(c, Obj) and c.cls.is_subclass(FQ12c) for c in res)
+        path.prove(f"{q}/ensures.shape", ok, detail="a point with FQ12 coordinates")
+        if not ok:
+            return
+        if opt:
+            rx, ry, rz = res
+            e = op(op(op(ry, "__mul__", ry), "__mul__", rz), "__sub__", op(op(op(rx, "__mul__", rx), "__mul__", rx), "__add__",
+                   op(b12, "__mul__", op(op(rz, "__mul__", rz), "__mul__", rz))))
+        else:
+            rx, ry = res
+            e = op(op(ry, "__mul__", ry), "__sub__", op(op(op(rx, "__mul__", rx), "__mul__", rx), "__add__", b12))
+        for i, c in enumerate(cf(e)):
+            path.prove(f"{q}/ensures.on-curve", FAtom(c.r.n, True), detail=f"twist(pt) satisfies y^2 = x^3 + b12 in F_p12 (coefficient of w^{i})")
+    ctx.ex.run(body, q)
+    ctx.trust("twist is the composition of the field embedding iota: F_p2 -> F_p12 (closed fact twist.embedding) with the scaling "
+              "(x, y) -> (x c^2, y c^3), an injective group homomorphism (Lean GroupLaw.lean scalePt_specAdd, scalePt_injective)")
+
+
+def PR_(name):
+    from pyvc.poly import Poly, R as _R
+    return _R(Poly.var(name))
+
+
+for _m, (_c, _o) in TWIST_MODS.items():
+    _s = _m.split(".")[1]
+    UNITS[f"{_s}.twist"] = Unit(f"{_s}.twist", u_twist, [f"{_m}.twist"], props=("C07", "C05"), args=(_m,), budget_s=300)
